@@ -110,7 +110,12 @@ const universe = 4 // values 1..universe; 0 and universe+1 are probed but never 
 
 // observe compares every query of u with the model; it returns a description
 // of the first disagreement.
-func observe(u *setUnderTest, m model, queries *int64) string {
+func observe(u *setUnderTest, m model, queries *int64) string { return observeOpt(u, m, queries, true) }
+
+// observeOpt: sameSize switches the same-size Equal negatives on (they cost as much as all other queries together;
+// the exhaustive sweep asks them of the initial state and of the state after the last operation of every history,
+// which covers every reachable state, because shorter histories recur as prefixes padded with no-op operations).
+func observeOpt(u *setUnderTest, m model, queries *int64, sameSize bool) string {
 	a := u.api()
 	want := m.sorted()
 	*queries += int64(universe + 2)
@@ -198,7 +203,7 @@ func observe(u *setUnderTest, m model, queries *int64) string {
 		}
 	}
 	// sets of the same size that differ in exactly one member (every member replaced by every non-member)
-	for v := 1; v <= universe; v++ {
+	for v := 1; sameSize && v <= universe; v++ {
 		if !m[v] {
 			continue
 		}
@@ -291,12 +296,13 @@ func runSetSeq(r *mon.Run, k kind, init []int, ops []int, queries *int64) {
 			frozen.api().Add(universe + 2)
 			frozenModel[universe+2] = true
 		}
-		if w := observe(u, m, queries); w != "" {
+		last := i == len(ops)-1
+		if w := observeOpt(u, m, queries, last); w != "" {
 			fail(i, w)
 			return
 		}
 		if frozen != nil {
-			if w := observe(frozen, frozenModel, queries); w != "" {
+			if w := observeOpt(frozen, frozenModel, queries, last); w != "" {
 				fail(i, "the other side of an earlier Clone changed: "+w)
 				return
 			}
